@@ -256,6 +256,15 @@ let proto file =
              | [ _; _; k; a; v ] -> (try Some (((match k with "1" -> AMesh | "2" -> AImage | _ -> AAudio), nd a), nd v) with _ -> None)
              | _ -> None) (find "DL") in
          let dls = List.map (fun ((k, a), v) -> ((k, a), v)) dls in
+         (* request() runs inside the receiver: an announcement handled in THIS frame may already have
+            its download applied by a process_*_assets system that runs later in the same frame *)
+         List.iter (fun l -> match split_ws l with
+             | [ _; _; _; "asset"; cls; a; o ] ->
+                 (try
+                    let k = (match cls with "mesh" -> AMesh | "image" -> AImage | _ -> AAudio) in
+                    Hashtbl.replace ever_pending (pi, k, nd a, n_of_int (int_of_string o)) true
+                  with _ -> ())
+             | _ -> ()) (find "RCV");
          (* what a finished download delivered must be what the model says the advertised owner serves *)
          List.iter (fun ((k, a), v) ->
              (* downloads are asynchronous: the bytes were fetched at some moment between the request and
